@@ -8,6 +8,7 @@ import QuiverModel.Lemmas.Packaging.Canon
 import QuiverModel.Lemmas.Packaging.Mark
 import QuiverModel.Lemmas.Packaging.Reach
 import QuiverModel.Lemmas.Packaging.ReachTransfer
+import QuiverModel.Lemmas.Packaging.SweepId
 import QuiverModel.Core.Packaging.Merge
 import QuiverModel.Lemmas.Packaging.MergeImport
 import QuiverModel.Lemmas.Packaging.MergeFrame
@@ -738,10 +739,8 @@ theorem treeShake_result_has_no_dead_entries {P : Prog} {e : Nat} {out : ShakeOu
   shaken_all_reachable (treeShake_marks h) (treeShake_sweep h)
 
 /-- **(T2) A second shake drops nothing**: if `tree_shake` is run again on its own output, every function, constant,
-    tuple, type and builtin of that output is marked (kept) — for every program and entry. What is NOT proved is the
-    syntactic rest of idempotence (the second output is the same bytecode with the identity renaming: a sorted
-    duplicate-free list over exactly `[0, n)` is `range n`, and the sweep under the identity tables is the identity);
-    the driver checks it on every shake of the run. -/
+    tuple, type and builtin of that output is marked (kept) — for every program and entry. The syntactic rest of
+    idempotence is `treeShake_idempotent` below. -/
 theorem treeShake_second_shake_drops_nothing {P : Prog} {e : Nat} {out out2 : ShakeOut}
     (h : treeShake P e = some out) (h2 : treeShake out.prog out.entry = some out2) :
     (∀ f, f < out.prog.fns.size → f ∈ out2.marks.fns) ∧ (∀ c, c < out.prog.consts.size → c ∈ out2.marks.consts) ∧
@@ -751,6 +750,36 @@ theorem treeShake_second_shake_drops_nothing {P : Prog} {e : Nat} {out out2 : Sh
   obtain ⟨a2, b2, c2, d2, f2, _⟩ := treeShake_keeps_exactly_reachable h2
   exact ⟨fun x hx => (a2 x).mpr (a x hx), fun x hx => (b2 x).mpr (b x hx), fun x hx => (c2 x).mpr (c x hx),
     fun x hx => (d2 x).mpr (d x hx), fun x hx => (f2 x).mpr (f x hx)⟩
+
+/-- **(T2) Idempotence of `tree_shake`**: shaking the shaken program again returns the same five tables, the same
+    entry and identity remap tables — for every program and entry. (`treeShake_second_shake_drops_nothing`: all ids
+    are marked again; the marks are duplicate-free and inside the tables, so each sorted mark list is `range n`
+    (`sorted_eq_range`); a sweep under identity tables is the identity (`sweep_full_identity`).) The `resources` list
+    (names, re-sorted by the sweep) is not covered. -/
+theorem treeShake_idempotent {P : Prog} {e : Nat} {out out2 : ShakeOut}
+    (h : treeShake P e = some out) (h2 : treeShake out.prog out.entry = some out2) :
+    out2.prog.fns = out.prog.fns ∧ out2.prog.consts = out.prog.consts ∧ out2.prog.tuples = out.prog.tuples ∧
+    out2.prog.types = out.prog.types ∧ out2.prog.builtins = out.prog.builtins ∧ out2.entry = out.entry ∧
+    (∀ f f', out2.ren.fn.get f = some f' → f' = f) ∧ (∀ c c', out2.ren.const.get c = some c' → c' = c) ∧
+    (∀ u u', out2.ren.tuple.get u = some u' → u' = u) ∧ (∀ t t', out2.ren.type.get t = some t' → t' = t) ∧
+    (∀ b b', out2.ren.builtin.get b = some b' → b' = b) := by
+  obtain ⟨k1, k2, k3, k4, k5⟩ := treeShake_second_shake_drops_nothing h h2
+  have hm2 := treeShake_marks h2
+  have hsw := treeShake_sweep h2
+  obtain ⟨n1, n2, n3⟩ := markAll_nodup hm2
+  have hc2 := markAll_closed hm2
+  obtain ⟨fs, fs', bs, hfs, _, _, hbs, _, _⟩ := sweep_fns_builtins hsw
+  obtain ⟨ys, ts, hys, hts, _, _⟩ := sweep_tables hsw
+  obtain ⟨cs, hcs, _, _, _⟩ := sweep_consts_entry hsw
+  have full : ∀ (l : List Nat) (n : Nat), l.Nodup → (∀ i ∈ sortAsc l, i < n) → (∀ x, x < n → x ∈ l) →
+      sortAsc l = List.range n := by
+    intro l n hn hin hall
+    refine sorted_eq_range (sortAsc_sorted l) (sortAsc_nodup hn) (fun x => ⟨fun hx => hin x hx, fun hx => ?_⟩)
+    exact mem_sortAsc.mpr (hall x hx)
+  exact sweep_full_identity hsw
+    (full _ _ n1 (getAll_inRange hfs) k1) (full _ _ n2 (getAll_inRange hcs) k2)
+    (full _ _ hc2.nodupTuples (getAll_inRange hts) k3) (full _ _ hc2.nodupTypes (getAll_inRange hys) k4)
+    (full _ _ n3 (getAll_inRange hbs) k5)
 
 /-- A spawning program in miniature: the entry spawns function 1, whose callable type (entry 1) receives
     and returns `'int`; the process type of the pids it creates is entry 2 — named by no instruction
